@@ -11,6 +11,7 @@
 #include <cstdlib>
 #include <cstring>
 #include <string>
+#include <stdexcept>
 #include <vector>
 #include <functional>
 #include <algorithm>
@@ -57,9 +58,12 @@ struct SchedSpec {
     int fault_k = 0;                   // k-th fault point throws (0 = none)
     unsigned fault_mask = ~0u;         // which kinds of fault point count
     long step_budget = 20000;
+    bool post_unlock = false;          // an additional scheduling point directly after every mutex release
 };
 
-struct InjectedFault { int at; };
+// derived from a standard exception class and carrying a payload, like the exceptions real user code throws: library code that
+// treats std::exception specially (or slices it) is then exercised by every fault plan
+struct InjectedFault : std::runtime_error { int at; explicit InjectedFault(int a) : std::runtime_error("injected fault"), at(a) {} };
 
 struct Result {
     bool violation = false;
@@ -113,6 +117,7 @@ struct Fiber {
     long timed_failures = 0;           // timed lock attempts that gave up
     long long waited_ns = 0;
     long last_timeout_step = -1;
+    int bulk = 0;                      // >0: plain (always enabled) steps of this fiber are not scheduling points (BulkScope)
     long delayed_until = -1;           // targeted delay: not runnable before this global step while other fibers can run (cv-entry window attack)
     bool fault_window = false;         // this fiber is inside a region where windowed faults may fire       // global step at which this fiber's latest timed wait was declared timed out           // virtual time spent in timed waits that gave up (each consumes its full duration)
     char eh[32];
@@ -373,6 +378,7 @@ inline void point() {
     Runtime& R = rt();
     if (!R.active || !R.cur) return;   // code running outside a case (static init etc.)
     Fiber* f = R.cur;
+    if (f->bulk > 0 && f->pend == P_NONE) return;   // inside a BulkScope: one indivisible chunk, not counted against the step budget
     R.res.steps++;
     f->own_steps++;
     if (f->freeze_at >= 0 && f->own_steps >= f->freeze_at) { f->frozen = true; f->freeze_at = -1; }
@@ -438,7 +444,7 @@ inline Fiber* alloc_fiber() {
     f->fn = nullptr;
     f->id = (int)idx; f->started = false; f->done = false; f->pend = P_NONE; f->pm = nullptr; f->pcv = nullptr;
     f->join_target = -1; f->join_status = 0; f->clock.clear(); f->yielded = false; f->frozen = false; f->freeze_at = -1;
-    f->own_steps = 0; f->last_run = 0; f->patience = -1; f->timed = false; f->timeout_fired = false; f->notified = false; f->spurious_in = -1;
+    f->own_steps = 0; f->bulk = 0; f->last_run = 0; f->patience = -1; f->timed = false; f->timeout_fired = false; f->notified = false; f->spurious_in = -1;
     f->held = 0; f->mutex_ops = 0; f->blocking_ops = 0; f->timed_failures = 0; f->waited_ns = 0; f->last_timeout_step = -1; f->fault_window = false; f->delayed_until = -1; f->asan_fake = nullptr; f->prio = 0;
     std::memset(f->eh, 0, sizeof f->eh);
 #ifdef VRT_ASAN
@@ -501,6 +507,12 @@ inline bool is_frozen(int id) { return rt().fibers[id]->frozen; }
 
 // plain scheduling point (harness-level: inside payload accesses, functors, predicates ...)
 inline void step() { if (rt().cur) { me().pend = P_NONE; point(); } }
+// Runs the enclosed code of the calling fiber as one indivisible chunk as far as plain steps (atomic accesses, payload windows)
+// are concerned; blocking operations remain scheduling points.  Used to set up large populations (hundreds of handles) cheaply.
+struct BulkScope {
+    BulkScope() { if (rt().cur) me().bulk++; }
+    ~BulkScope() { if (rt().cur) me().bulk--; }
+};
 
 inline void yield_now() {
     if (!rt().cur) return;
@@ -519,7 +531,7 @@ inline void fault_point(unsigned kind) {
     if (!R.active || !R.spec->fault_k || R.faults_off) return;
     if (!(kind & R.spec->fault_mask)) return;
     if (R.faults_need_window && !(R.cur && R.cur->fault_window)) return;
-    if (++R.fault_counter == R.spec->fault_k) { R.res.faults_fired++; throw InjectedFault{(int)R.fault_counter}; }
+    if (++R.fault_counter == R.spec->fault_k) { R.res.faults_fired++; throw InjectedFault((int)R.fault_counter); }
 }
 
 inline void disable_faults() { rt().faults_off = true; }
